@@ -393,7 +393,7 @@ def _run(tier, seed):
     return rep.result(
         assumptions=[
             "C20: feaLib registration rule (script-less block -> every declared languagesystem; explicit script/language sections -> those pairs) is trusted by lemma C20.lemma.reach; observed on compiled fonts only",
-            "C20: ast.getScriptLanguageSystems and KernFeatureWriter._registerLookups are checked by bounded enumeration on the real functions, not deductively",
+            "C20: ast.getScriptLanguageSystems (all clauses) and the completeness half of KernFeatureWriter._registerLookups (DFLT registered whenever a common/LTR/RTL lookup exists; every OT tag of every kerned script gets a call; content and order of the lookup lists) are checked by bounded enumeration on the real functions, not deductively; only the soundness half of _registerLookups (which tags, with which languages, in the calls that are made) is a discharged contract",
             "C20: feature files without languagesystem statements (and kerned scripts without a `languagesystem <tag> dflt`) are excluded from the observer: finding F7",
         ]
     )
